@@ -542,7 +542,10 @@ def build(repo):
                    && same_msg(final(request).message, old(request).message)
                    && final(request).response->0.message.header.code == MessageClass::Response(ResponseType::Continue)
                    && final(request).response->0.message.payload@ == old(request).response->0.message.payload@
-                   && exists|nb: BlockValue| nb.size_exponent <= 7 && #[trigger] opts_view(final(request).response->0.message.options)
+                   && exists|nb: BlockValue| nb.size_exponent <= 7
+                       // C10: the Block1 value in the reply is the negotiation result for this request's overhead and the configured budget
+                       && neg_post(b, overhead_of(old(request).message) as int + old(request).message.payload@.len() as int, old(request).message.payload@.len() as int, max_total_message_size as int, Ok(Some(nb)))
+                       && #[trigger] opts_view(final(request).response->0.message.options)
                            == push_opt(opts_view(old(request).response->0.message.options), 27, block_bytes(nb)) }),
             // C09: the final block hands the application the assembled body, which ends with this block; the buffer is released
             ({ // @clause final-delivers-body @props C09
@@ -550,7 +553,10 @@ def build(repo):
                b is Some && r is Ok && !b->0.more ==> !r->Ok_0 && final(state).cached_request_payload is None
                    && final(request).message.payload@ == b1_delivered(buf_of(*old(state)), b->0.num as int, sz(b->0.size_exponent), p)
                    && final(request).response->0.message.header.code == old(request).response->0.message.header.code
-                   && exists|nb: BlockValue| nb.size_exponent <= 7 && #[trigger] opts_view(final(request).response->0.message.options)
+                   && exists|nb: BlockValue| nb.size_exponent <= 7
+                       // C10: the Block1 value in the reply is the negotiation result for this request's overhead and the configured budget
+                       && neg_post(b, overhead_of(old(request).message) as int + old(request).message.payload@.len() as int, old(request).message.payload@.len() as int, max_total_message_size as int, Ok(Some(nb)))
+                       && #[trigger] opts_view(final(request).response->0.message.options)
                            == push_opt(opts_view(old(request).response->0.message.options), 27, block_bytes(nb)) }),
             // C09 "exactly once": a final block with num > 0 that finds no upload in progress (the final block
             // delivered a second time) must not be handed to the application
@@ -565,7 +571,10 @@ def build(repo):
                    && (!r->Ok_0 ==> final(request).response == old(request).response)
                    && (r->Ok_0 ==> old(request).response is Some
                            && final(request).response->0.message.header.code == MessageClass::Response(ResponseType::RequestEntityTooLarge)
-                           && exists|nb: BlockValue| nb.size_exponent <= 7 && #[trigger] opts_view(final(request).response->0.message.options)
+                           && exists|nb: BlockValue| nb.size_exponent <= 7
+                       // C10: the Block1 value in the reply is the negotiation result for this request's overhead and the configured budget
+                       && neg_post(b, overhead_of(old(request).message) as int + old(request).message.payload@.len() as int, old(request).message.payload@.len() as int, max_total_message_size as int, Ok(Some(nb)))
+                       && #[trigger] opts_view(final(request).response->0.message.options)
                                    == push_opt(opts_view(old(request).response->0.message.options), 27, block_bytes(nb))) }),''', props=['C09', 'C11', 'C12'])
     u.closure(B1, r'\|x\|', 'x: Result<BlockValue, IncompatibleOptionValueFormat>', 'o: Option<BlockValue>', 'ensures x is Ok ==> o == Some(x->Ok_0), x is Err ==> o is None')
     u.before(B1, r'let payload_offset\s*=', '''                proof {
